@@ -68,7 +68,7 @@ CLAIM = dict(
 LITS = ["<b>", "&", "'", '"', "x", "", " ", "<i class='k'>", "&#39;", "1 < 2 > 0", "é<", "a\nb", "<m9>"]
 TEXTS = ["p ", " q", "x", "-", "[", "]", "a\nb", "é", "lt;", " "]           # template text: free of < > " '
 DATA = ["<m1>", "a&b", "\"m2'", "<script>alert('m3')</script>", "", "x", "<>&'\"", "m4\"><m4>", "' onx='m5", "a\n<m6>\nb", "m7 m7 <m7> m7"]
-MODES = ["static", "select", "block", "volatile"]
+MODES = ["static", "select", "block", "volatile", "volatile_on"]
 
 
 def make_case(ctx, i):
@@ -85,12 +85,14 @@ def make_env(jinja2, mode, templates, rseed=0):
     if mode == "select":
         return jinja2.Environment(loader=jinja2.DictLoader(templates), autoescape=jinja2.select_autoescape(
             enabled_extensions=("html", "XML"), disabled_extensions=("txt",), default=False, default_for_string=False))
-    return jinja2.Environment(loader=jinja2.DictLoader(templates), autoescape=False)
+    # block / volatile: the region switches autoescape on inside an environment whose default is off;
+    # volatile_on: runtime-decided region inside an environment whose default is on
+    return jinja2.Environment(loader=jinja2.DictLoader(templates), autoescape=(mode == "volatile_on"))
 
 
 WRAP = {"static": None, "select": None, "block": ("{% autoescape true %}", "{% endautoescape %}"),
-        "volatile": ("{% autoescape flag %}", "{% endautoescape %}")}
-SUFFIX = {"static": "", "select": ".Html", "block": "", "volatile": ""}
+        "volatile": ("{% autoescape flag %}", "{% endautoescape %}"), "volatile_on": ("{% autoescape flag %}", "{% endautoescape %}")}
+SUFFIX = {"static": "", "select": ".Html", "block": "", "volatile": "", "volatile_on": ""}
 
 
 def render_term(jinja2, case):
@@ -114,8 +116,10 @@ def run(ctx, res):
     probe = run_known_probe(ctx, res, jinja2)
     sel = run_select(ctx, res, jinja2)
     reg = run_regions(ctx, res, jinja2)
+    blocks = run_blocks(ctx, res, jinja2)
     res.coverage.update({
-        "evaluations": terms["renders"] + scan["renders"] + probe + sel + reg["renders"],
+        "evaluations": terms["renders"] + scan["renders"] + probe + sel + reg["renders"] + blocks["renders"],
+        "filter_blocks_literals_loops": blocks,
         "regions": reg,
         "select_autoescape_cases": sel,
         "distinct_nontrivial": terms["nontrivial"] + scan["nontrivial"],
@@ -199,6 +203,12 @@ METHODS = [
 ]
 
 
+# urlize with a display limit smaller and larger than the URL, on URLs whose path / query carries metacharacters
+URLIZE_TRIM = ["u|urlize(5)", "u|urlize(200)", "u|urlize(trim_url_limit=200, nofollow=true, target=w)", "u|urlize(12, true)",
+               "(u ~ ' www.b.org/' ~ x)|urlize(300)", "(x ~ ' ' ~ u)|urlize(0)", "u|urlize(n)", "u|urlize(n * 30, rel=y)"]
+URLS = ["http://a.com/p?x=<m1>&y=\"q\"'r'", "https://b.org/<m2>/'x'?a=1&b=\"2\"", "www.c.net/a'b\"c<d>e&f"]
+
+
 def run_scan(ctx, res, jinja2):
     """all built-in filters x receivers x argument shapes, methods and operators; data-controlled everywhere"""
     rng = ctx.rng("scan")
@@ -217,6 +227,8 @@ def run_scan(ctx, res, jinja2):
                         srcs.append(("mfree", f, call + p))
     for mexpr in METHODS:
         srcs.append(("mfree", "expr", mexpr))
+    for uexpr in URLIZE_TRIM:
+        srcs.append(("shape", "urlize", uexpr))
     basic = lambda e: e[2].count("|") == 1 and "(" not in e[2].split("|")[1]  # noqa: E731  receiver|filter, no arguments
     keep = [s for s in srcs if s[1] == "expr" or s[0] != "mfree" or basic(s)]
     rest = [s for s in srcs if not (s[1] == "expr" or s[0] != "mfree" or basic(s))]
@@ -225,7 +237,7 @@ def run_scan(ctx, res, jinja2):
     datasets = []
     for _ in range(ctx.pick(1, 2)):
         datasets.append({"x": rng.choice(DATA[:1] + DATA[2:4] + DATA[6:]), "y": rng.choice(["\"m2'", "<y1>", "' y2=\"<"]),
-                         "w": rng.choice(["<w>", "\"'", ">w<"]), "n": 3})
+                         "w": rng.choice(["<w>", "\"'", ">w<"]), "n": 3, "u": rng.choice(URLS)})
     reqs, jobs = [], []
     renders = raised = 0
     per_filter_ok = {}
@@ -363,6 +375,95 @@ def run_regions(ctx, res, jinja2):
     return {"renders": len(jobs), "blocks_agree": agree, "known_defect_instances": known}
 
 
+SIX = [("replace", "' ', w"), ("replace", "w, y"), ("replace", "'a', w, 1"), ("indent", "w, true"), ("indent", "w, true, true"), ("indent", "w"),
+       ("format", "w"), ("format", "w, y"), ("truncate", "5, true, w[:3], 0"), ("truncate", "6, false, w[:3], 0"), ("wordwrap", "3, true, w"),
+       ("wordwrap", "2, false, w"), ("join", "w"), ("join", "")]
+BLOCK_ARGS = ["", "w", "w, y", "1", "2, w", "3, true, w, 0", "w, true", "true", "'a', w", "4, true, w", "x", "'k'"]
+BODIES = ["a b\nc d e", "{{ x }}", "[%s] %s", "", "a {{ y }} b"]
+LITERALS = [
+    '["<b>"]', '("<b>", 1)', '{"k": "<b>"}', '{"<k>": 1}', '["<b>"] * 2', '"<b>"|list', '["<b>", "\'"]', '[["<i>"]]', '("<b>",)', '["<b>"] + ["x"]',
+    '{"k": ["<b>"]}', '["<b>"]|list', '("<b>", \'"\')|list', '["<b>"]|first', '"<b>" * 2', '"<b>" ~ 1', '1 ~ "<b>"', '"<b>"|upper', '"<b>"|center(9)',
+    '("<b>" if true else "")', '["<b>"][0]', '{"k": "<b>"}.k', '{"k": "<b>"}|dictsort', '["<b>"]|map("upper")|list', '"<b>x"|batch(2)|list',
+    '"a<b"|slice(2)|list', '[1, "<b>"]|reverse|list', '"<b>"|pprint', '["<b>"]|string', '["<b>"]|join', 'none|default(["<b>"])', '["<b>"]|unique|list',
+    '["<b>"]|sort', '[["<b>", 1]]|map("first")|list', '"<b>"', '"<b>"|string', '("<b>", "<i>")|join("\'")', '"%s"|format("<b>")', '"<b>"|replace("b", "\'")',
+    '"<b>"|indent("<i>", true)', '"<b>"|truncate(9)', '"<b> <i>"|wordwrap(3, true, "\'")', '["<b>"]|length', '"<b>"|e|list', '[("<b>"|e)]', '{"k": "<b>"|e}',
+    '"<b>"|title|list', '"<b>".upper()', '"<b>".split("b")', '"{}".format("<b>")', '"<b>" in ["<b>"]', '["<b>"] == ["<b>"]', '[not "<b>", "<b>" and "<i>"]',
+]
+PLACEMENTS = [("plain", "{{ %s }}"), ("macro", "{%% macro mm() %%}{{ %s }}{%% endmacro %%}{{ mm() }}"), ("set-block", "{%% set vv %%}{{ %s }}{%% endset %%}{{ vv }}"),
+              ("call", "{%% macro ww() %%}{{ caller() }}{%% endmacro %%}{%% call ww() %%}{{ %s }}{%% endcall %%}"), ("set", "{%% set vv = %s %%}{{ vv }}"),
+              ("for", "{%% for q in [1] %%}{{ %s }}{%% endfor %%}"), ("filter-block", "{%% filter upper %%}{{ %s }}{%% endfilter %%}")]
+LOOP_FORMS = [
+    ("direct", "{% for x in tree recursive %}[{{ x.v }}{{ loop(x.children) }}]{% endfor %}"),
+    ("set-block", "{% for x in tree recursive %}{% set s %}{{ loop(x.children) }}{% endset %}({{ x.v ~ w }}{{ s }}){% endfor %}"),
+    ("macro", "{% macro mm(c) %}-{{ c }}-{% endmacro %}{% for x in tree recursive %}{{ x.v }}{{ mm(loop(x.children)) }}{% endfor %}"),
+    ("concat", "{% for x in tree recursive %}{{ x.v ~ loop(x.children) }}{% endfor %}"),
+]
+
+
+def marker_tree(rng, depth, tag="t"):
+    out = []
+    for i in range(rng.randrange(1, 3)):
+        name = f"{tag}{i}"
+        out.append({"v": rng.choice([f"<{name}>", f"'{name}\"", f"&{name}<"]),
+                    "children": marker_tree(rng, depth - 1, name) if depth > 1 else []})
+    return out
+
+
+def run_blocks(ctx, res, jinja2):
+    """filter blocks and filtered set blocks (every filter; the six Markup-aware ones with data-controlled arguments in full), literal
+    containers / literal expressions in several placements, recursive loops — in every autoescape configuration"""
+    rng = ctx.rng("blocks")
+    filters = [f for f in sorted(jinja2.Environment().filters) if f not in ("safe", "urlize", "xmlattr", "tojson")]
+    combos = [(f, a, b) for f, a in SIX for b in BODIES]
+    others = [(f, a, b) for f in filters for a in BLOCK_ARGS for b in BODIES]
+    rng.shuffle(others)
+    combos += others[: ctx.pick(700, len(others))]
+    data = {"x": rng.choice(["<m1>", "\"m2'", "a<m6>b"]), "y": rng.choice(["<y1>", "' y2=\"<"]), "w": rng.choice(["<w>", "\"'w", ">w<"]), "n": 3, "flag": True}
+    data["tree"] = marker_tree(rng, 3)
+    reqs, jobs = [], []
+    renders = raised = 0
+    count = {}
+
+    def add(mode, env, key, src, what):
+        nonlocal renders, raised
+        wrap = WRAP[mode] or ("", "")
+        full = wrap[0] + src + wrap[1]
+        try:
+            if mode == "select":
+                env.loader.mapping["t.Html"] = full
+                env.cache.clear()
+                out = env.get_template("t.Html").render(**data)
+            else:
+                out = env.from_string(full).render(**data)
+        except Exception:  # noqa
+            raised += 1
+            return
+        renders += 1
+        count[what] = count.get(what, 0) + 1
+        if T_wire_ok(out):
+            reqs.append([Atom("autoesc"), Atom("mfree"), out])
+            jobs.append((mode, key, full, out))
+
+    for mode in MODES:
+        env = make_env(jinja2, mode, {})
+        for f, a, b in combos:
+            call = f + (f"({a})" if a else "")
+            add(mode, env, f"C15:leak:filter-block:{f}", "{% filter " + call + " %}" + b + "{% endfilter %}", "filter-block")
+            add(mode, env, f"C15:leak:filtered-set-block:{f}", "{% set vv | " + call + " %}" + b + "{% endset %}{{ vv }}", "filtered-set-block")
+        for lit in LITERALS:
+            for pname, pat in PLACEMENTS:
+                add(mode, env, f"C15:leak:literal:{pname}:{lit[:40]}", pat % lit, "literal")
+        for lname, src in LOOP_FORMS:
+            add(mode, env, f"C15:leak:recursive-loop:{lname}", src, "recursive-loop")
+    for (mode, key, src, out), rep in zip(jobs, core.driver_batch(reqs)):
+        if rep[1] is not True:
+            res.violate(key, f"{src!r} with x={data['x']!r} y={data['y']!r} w={data['w']!r} under {mode} autoescape renders {out!r}: raw markup character "
+                        "from data or a string literal", {"src": src, "data": data, "mode": mode, "out": out, "full": True})
+    if not all(count.get(k) for k in ("filter-block", "filtered-set-block", "literal", "recursive-loop")):
+        raise core.HarnessError(f"block/literal/loop scan degenerate: {count}")
+    return {"renders": renders, "raised": raised, "by_kind": count, "modes": MODES, "filter_block_combinations": len(combos)}
+
+
 def T_wire_ok(s):
     return not any(0xD800 <= ord(c) <= 0xDFFF for c in s)
 
@@ -403,6 +504,12 @@ def replay(ctx, case):
             return {"src": src, "render": env.from_string(src).render(**dict(c["data"], flag=True))}
         except Exception as e:  # noqa
             return {"src": src, "raised": f"{type(e).__name__}: {e}"}
+    if "src" in c and c.get("full"):
+        env = make_env(jinja2, "static" if c["mode"] == "select" else c["mode"], {})
+        try:
+            return {"render": env.from_string(c["src"]).render(**c["data"])}
+        except Exception as e:  # noqa
+            return {"raised": f"{type(e).__name__}: {e}"}
     if "src" in c:
         return {"render": jinja2.Environment(autoescape=c.get("autoescape", False)).from_string(c["src"]).render(**c["data"])}
     return c
